@@ -900,7 +900,9 @@ func (g *Gen) transCall(e *Expr, env *TEnv) tvT {
 		if _, ok := x.gt.Underlying().(*types.Slice); !ok {
 			g.fail("arr() of non-slice")
 		}
-		return tvT{t: fmt.Sprintf("(base %s)", x.t), sort: "Int"}
+		// typed as a reference, so that `arr(s) == nil` (no backing array: a nil or zero-capacity slice
+		// literal) and arr(s) == arr(t) mean the same in both arithmetic modes
+		return tvT{t: fmt.Sprintf("(base %s)", x.t), gt: types.Typ[types.UnsafePointer]}
 	case "offs":
 		// offs(s): position of s[0] inside its backing array (with arr(s): where exactly the slice lives)
 		x := g.trans(args[0], env)
